@@ -14,14 +14,11 @@ fn fmt_save(save: &[u32]) -> String {
 fn b01(b: bool) -> &'static str { if b { "1" } else { "0" } }
 
 /// copy of `ops_pattern::err_str` (private there): `ParsePatError`'s fields are private, take them from
-/// its `Debug` text and cross-check the position with `Display`
+/// its `Debug` text
 fn err_str(e: &pattern::ParsePatError) -> String {
 	let dbg = format!("{:?}", e);
 	let kind = dbg.split("kind: ").nth(1).and_then(|s| s.split(',').next()).unwrap_or("?").trim().to_string();
 	let pos = dbg.split("position: ").nth(1).map(|s| s.trim_end_matches(|c: char| !c.is_ascii_digit()).to_string()).unwrap_or_else(|| "?".to_string());
-	let disp = format!("{}", e);
-	let dpos = disp.split('@').nth(1).and_then(|s| s.split(':').next()).unwrap_or("?").to_string();
-	if dpos != pos { return format!("err {} {} display-position-differs({})", kind, pos, dpos); }
 	format!("err {} {}", kind, pos)
 }
 
